@@ -429,6 +429,72 @@ def batch_pair(creator):
     return c08.placeholder(creator, oracle="c13")
 
 
+def header_fields(version):
+    """Request header values a client may legally send: any 64-bit time stamp, any maximum response
+    size, batch options - never an internal error."""
+    version = tuple(version)
+
+    def h(stamp: int, has_stamp: bool, mx: int, has_mx: bool, order: bool, beci: int, is_async: bool, has_async: bool) -> bool:
+        """
+        post: _
+        """
+        if not (-2 ** 63 <= stamp < 2 ** 63 and 0 <= mx < 2 ** 31 and 0 <= beci <= 3):
+            return True
+        e, s = mk_engine(store("SymmetricKey", 1), version=version, crypto=P.RecordingCrypto())
+        bec = None
+        for k, v in enumerate([None, enums.BatchErrorContinuationOption.STOP, enums.BatchErrorContinuationOption.CONTINUE,
+                               enums.BatchErrorContinuationOption.UNDO]):
+            if beci == k:
+                bec = v
+        req = mk_request([(OP.GET, None, P.mk("GET", "1", version=version))], version=version, bec=bec, order=order,
+                         max_size=mx if has_mx else None, time_stamp=stamp if has_stamp else None)
+        if has_async:
+            from kmip.core.messages import contents
+            req.request_header.asynchronous_indicator = contents.AsynchronousIndicator(is_async)
+        try:
+            resp, _, _ = e.process_request(req, ["alice", None])
+        except kex.KmipError:
+            reach()
+            return True                       # a header-level refusal is a KMIP error (the session answers with it)
+        reach()
+        for item in resp.batch_items:
+            if item.result_reason is not None and item.result_reason.value == enums.ResultReason.GENERAL_FAILURE:
+                return False
+        return True
+    return h
+
+
+def unknown_policy(op):
+    """A stored object may name an operation policy the server does not (or no longer) have; requesters
+    with and without group information must be refused cleanly."""
+    def h(gi: int, si: int) -> bool:
+        """
+        post: _
+        """
+        if not (0 <= gi <= 2 and 0 <= si < 4):
+            return True
+        objs = store("SymmetricKey", si)
+        objs[0].operation_policy_name = "retired"
+        groups = None
+        if gi == 1:
+            groups = []
+        elif gi == 2:
+            groups = ["g1"]
+        e, s = mk_engine(objs, version=(1, 2), crypto=P.RecordingCrypto())
+        if op == "LOCATE":
+            payload = P.mk("LOCATE")
+        else:
+            payload = P.mk(op, "1")
+        req = mk_request([(getattr(OP, op), None, payload)], version=(1, 2))
+        resp, _, _ = e.process_request(req, ["alice", groups])
+        reach()
+        for item in resp.batch_items:
+            if item.result_reason is not None and item.result_reason.value == enums.ResultReason.GENERAL_FAILURE:
+                return False
+        return True
+    return h
+
+
 def backend_errors():
     """The real crypto engine's MAC with the backend primitives raising ValueError / TypeError /
     UnsupportedAlgorithm, or refusing the key size: only KMIP errors may come out (anything else
@@ -444,6 +510,16 @@ def conditions(tier):
                     bounds="CryptographyEngine.mac: 12 algorithms, key length 3/16/20/24, the HMAC/CMAC/algorithm "
                            "constructors behaving or raising ValueError/TypeError/UnsupportedAlgorithm", timeout=600,
                     part="crypto-backend"))
+    for v in ([(1, 2), (2, 0)] if not thorough else stubs.VERSIONS):
+        out.append(Cond("header-fields-%d.%d" % v, "header_fields", dict(version=list(v)),
+                        bounds="request header: time stamp absent or any 64-bit value, maximum response size absent or any "
+                               "31-bit value, batch order flag, continuation option absent/Stop/Continue/Undo, "
+                               "asynchronous indicator absent/false/true", timeout=600, part="header"))
+    for op in ("GET", "GET_ATTRIBUTES", "LOCATE", "DESTROY"):
+        out.append(Cond("unknown-policy-%s" % op, "unknown_policy", dict(op=op),
+                        bounds="%s while the stored object names a policy the server does not have; requester without "
+                               "groups / with an empty group list / with a group; any stored state" % op, timeout=300,
+                        part="policy"))
     from harness import c08 as _c08
     for creator in _c08.CREATORS:
         out.append(Cond("batch-%s" % creator, "batch_pair", dict(creator=creator),
